@@ -1,4 +1,4 @@
 INIT Init
 NEXT Next
-INVARIANTS Accepted Layout Canonical PredictedReply LiveReply BodyRoundTrip
+INVARIANTS Accepted Layout Canonical PredictedReply LiveReply BodyRoundTrip HeldFrameStable
 CHECK_DEADLOCK FALSE
